@@ -362,6 +362,9 @@ func (e *c04Exec) subRun(z zoneCfg) (out []string, sdig string, infra string) {
 					infra = got.Outcome
 					return
 				}
+				if got.Repeat != "" {
+					e.violate("result-stability", "repeat-after-caller-edit", fmt.Sprintf("client %d op %d (%s %q): %s", ci, oi, op.Kind, c.Programs[op.Prog].Src, got.Repeat))
+				}
 				if got.Stale != "" {
 					e.violate("input-currency", "input-change-ignored", fmt.Sprintf("client %d op %d (%s %q): %s", ci, oi, op.Kind, c.Programs[op.Prog].Src, got.Stale))
 				}
@@ -411,6 +414,9 @@ func (e *c04Exec) subRun(z zoneCfg) (out []string, sdig string, infra string) {
 					case !got.Entry.Equal(got.Exit):
 						pinned = false
 					}
+				}
+				if op.Kind == "evalmut" && !got.HasTime && !got.Entry.Equal(got.Exit) {
+					pinned = false // several evaluations in one operation, each at its own instant
 				}
 				if !pinned && timeDependent(c.Programs[op.Prog].Src) {
 					v.Stats.probe("time-dependent-op-not-pinned")
